@@ -411,25 +411,34 @@ class Batch:
         self.conts = []
         self.driver_ok = driver_ok
 
+    FLUSH_AT = 20000
+
     def add(self, op, cont):
         self.ops.append(op)
         self.conts.append(cont)
+        if len(self.ops) >= self.FLUSH_AT:
+            # long runs: answer what has been collected so far (keeps the memory of a thorough run bounded)
+            self.run()
 
     def run(self):
         if not self.ops:
             return
         if not self.driver_ok:
-            for c in self.conts:
+            conts, self.ops, self.conts = self.conts, [], []
+            for c in conts:
                 c(None)
             return
-        answers = run_driver(self.ops)
-        for op, a in zip(self.ops, answers):
+        ops, conts, self.ops, self.conts = self.ops, self.conts, [], []
+        answers = run_driver(ops)
+        for op, a in zip(ops, answers):
             if isinstance(a, list) and a and a[0] == "bad-op":
                 # the driver does not know the operation / cannot decode it: harness and driver are out of step (infrastructure)
                 raise DriverError(f"driver answered bad-op for operation {op[0]!r}: {a}")
-        for a, c in zip(answers, self.conts):
+        for a, c in zip(answers, conts):
             c(a)
-        self.ops, self.conts = [], []
+        if self.ops:
+            # operations added by the continuations themselves
+            self.run()
 
 
 def load_corpus(pid: str):
